@@ -1,6 +1,8 @@
+mod c09;
 mod c10;
 mod common;
 mod detectors;
+mod layout;
 
 use common::*;
 
@@ -23,6 +25,21 @@ fn main() {
             let mut w = NdjsonWriter::new(&a(3));
             c10::record(&a(2), &mut w, &mut out);
             w.finish();
+        }
+        "c09-replay" => c09::replay(&a(2), &mut out),
+        "c09-record" => {
+            let mut w = NdjsonWriter::new(&a(3));
+            c09::record(&a(2), &mut w, &mut out);
+            w.finish();
+        }
+        "scan-replay" => layout::replay_scan(&a(2), &mut out),
+        "layout-record" => {
+            // layout-record <corpus> <patterns.ndjson> <c02|c17> <per-program> <trace> <texts>
+            let mut w = NdjsonWriter::new(&a(6));
+            let mut t = NdjsonWriter::new(&a(7));
+            layout::record(&a(2), &a(3), &a(4), a(5).parse().unwrap_or(8), &mut w, &mut t, &mut out);
+            w.finish();
+            t.finish();
         }
         _ => usage(),
     }
